@@ -116,11 +116,21 @@ def cases():
                 out.append((elem, style, ch))
             for blob in ("".join(LATIN), "".join(DIGITS), "".join(GREEK + VARIANT_SYMBOLS + DIGAMMA), "aB3" + "βΓ" + "=x"):
                 out.append((elem, style, blob))
+        for dep in DEPRECATED:
+            for elem in ("mi", "mn"):
+                for blob in ("".join(LATIN), "".join(DIGITS), "".join(GREEK + VARIANT_SYMBOLS + DIGAMMA), "R", "x"):
+                    out.append((elem + dep, style, blob))
     return out
 
 
+DEPRECATED = {"+bold": " fontweight='bold'", "+italic": " fontstyle='italic'", "+both": " fontweight='bold' fontstyle='italic'", "+normal": " fontweight='normal' fontstyle='normal'"}
+
+
 def make_input(elem, style, text):
-    return "<math><%s mathvariant='%s'>%s</%s></math>" % (elem, mml.esc(style), mml.esc(text), elem)
+    # 'mi+bold' etc.: the token also carries MathML 2's deprecated fontweight / fontstyle; MathML 3 says mathvariant overrides them, so the
+    # expected characters are exactly those of the mathvariant alone
+    tag, _, dep = elem.partition("+")
+    return "<math><%s mathvariant='%s'%s>%s</%s></math>" % (tag, mml.esc(style), DEPRECATED["+" + dep] if dep else "", mml.esc(text), tag)
 
 
 def judge(elem, style, text, res):
